@@ -119,7 +119,7 @@ func c14GenEvents(r *rand.Rand, rs []rateSpec, nsrc, n int) []c14Ev {
 }
 
 func c14Rate(c *Ctx) {
-	c.Cases("merge", c.N(300, 10000), func(i int, r *rand.Rand) {
+	c.Cases("merge", c.N(1200, 40000), func(i int, r *rand.Rand) {
 		rs := genRates(r, 2)
 		nsrc := 2 + r.IntN(11)
 		capacity := pick(r, []int{0, nsrc, nsrc + 1, nsrc + 5, 64})
@@ -170,7 +170,7 @@ func c14Rate(c *Ctx) {
 
 // c14Evict: more sources than capacity, victim-unambiguous shape.
 func c14Evict(c *Ctx) {
-	c.Cases("evict", c.N(200, 6000), func(i int, r *rand.Rand) {
+	c.Cases("evict", c.N(1000, 30000), func(i int, r *rand.Rand) {
 		capacity := 1 + r.IntN(8)
 		period := pick(r, []time.Duration{30 * time.Minute, time.Hour, 2 * time.Hour}) // one token per >= 30 min: nothing refills during the case
 		burst := int64(1 + r.IntN(4))
@@ -263,7 +263,7 @@ func c14Evict(c *Ctx) {
 }
 
 func c14Conn(c *Ctx) {
-	c.Cases("conn", c.N(300, 10000), func(i int, r *rand.Rand) {
+	c.Cases("conn", c.N(1000, 30000), func(i int, r *rand.Rand) {
 		limit := int64(1 + r.IntN(4))
 		nsrc := 2 + r.IntN(3)
 		script := genConnScript(r, nsrc, 30+r.IntN(90))
@@ -319,7 +319,7 @@ func c14Conn(c *Ctx) {
 
 // c14RateConc: one goroutine per source, clock advanced only at barriers; each source's sequence must equal its solo run.
 func c14RateConc(c *Ctx) {
-	c.Cases("rateconc", c.N(40, 1000), func(i int, r *rand.Rand) {
+	c.Cases("rateconc", c.N(120, 3000), func(i int, r *rand.Rand) {
 		rs := genRates(r, 2)
 		nsrc := 2 + r.IntN(7)
 		start := baseTime.Add(time.Duration(r.Int64N(1e9)))
